@@ -1,5 +1,6 @@
 """C17: the loader either rejects a file or returns a coherent IR."""
 import fault_stream
+import loader_stream
 import msg_stream
 
 
@@ -8,6 +9,8 @@ def run(ctx):
     # every file produced by save from a self-contained IR is accepted,
     # and accepted foreign messages give coherent, saveable IRs
     msg_stream.run(ctx, {"C17"}, ctx.scale(60, 1500))
+    # the staged decoder over the object-graph model, duplicated UUIDs included
+    loader_stream.run(ctx)
 
 
 def search(ctx, broken):
